@@ -263,6 +263,24 @@ theorem cex_spelling_by_spelling :
   revert this
   decide
 
+/-! The finding's own input, evaluated in the model of the repaired code and, for contrast, with the
+comparison by spelling. -/
+
+/-- `{ a = 1; }` -/
+def exBare : Doc :=
+  { target := .set 0 [.bind 1 "a".toList false (.atom "1".toList) [] []] [] false false }
+
+theorem repaired_set_updates_in_place :
+    @setValue NameCmp.model "\"a\"".toList (.one (.atom "2".toList)) exBare =
+      (.ok (), exBare.updBind 1 (.atom "2".toList)) := rfl
+
+theorem by_spelling_wrote_a_second_definition :
+    (@setValue NameCmp.spelled "\"a\"".toList (.one (.atom "2".toList)) exBare).2.target.setValues.length = 2 := rfl
+
+theorem repaired_rm_finds_it :
+    (@removeValue NameCmp.model "\"a\"".toList exBare).1 = .ok () ∧
+    (@removeValue NameCmp.model "\"a\"".toList exBare).2.target.setValues = [] ∧
+    (@removeValue NameCmp.spelled "\"a\"".toList exBare).1 = .error .key := ⟨rfl, rfl, rfl⟩
 /-- Refinding: the spelling `set` writes is a function of the segment alone, so a second `set`/`rm`
     with the same path text looks for the very same token — and with `path_spelling_irrelevant`, a
     path that spells the segments differently finds the same bindings as well. -/
